@@ -12,9 +12,13 @@ TraceSkip == SkipStep /\ UNCHANGED avars
 
 Ids(seq) == {Id(seq[i]) : i \in 1..Len(seq)}
 
+(* ts = the timestamp the buffer is seen to have given (0: not seen yet, an "appended" line follows) *)
 TAppend == /\ IsEvent("append") /\ Strict
-           /\ \E ts \in Assignable(Ev.req) : AAppend(Ev.id, Ev.req, ts)
+           /\ \E ts \in Assignable(Ev.req) : (Ev.ts = 0 \/ Ev.ts = ts) /\ AAppend(Ev.id, Ev.req, ts)
            /\ UNCHANGED <<sub, disk>>
+TAppended == /\ IsEvent("appended") /\ Strict
+             /\ log # <<>> /\ log[Len(log)] = <<Ev.id, Ev.ts>>
+             /\ UNCHANGED avars
 TStart == /\ IsEvent("start") /\ Strict
           /\ Ev.r \in Readers /\ ~sub[Ev.r].on
           /\ AStart(Ev.r, Ev.t0) /\ UNCHANGED <<log, disk>>
@@ -25,18 +29,19 @@ TRead == /\ IsEvent("rd") /\ Ev.r \in Readers
          /\ UNCHANGED <<log, disk>>
 TEnd == /\ IsEvent("end") /\ Strict /\ Ev.r \in Readers
         /\ AEnd(Ev.r) /\ UNCHANGED avars
-TFlush1 == /\ IsEvent("fl1") /\ Strict
+(* fl2: a flush has completed (flushFn has returned and the buffer has published it) *)
+TFlush2 == /\ IsEvent("fl2") /\ Strict
            /\ AFlushed(Ids(Ev.got)) /\ UNCHANGED <<log, sub>>
 TQuiesce == /\ IsEvent("quiesce") /\ Strict
             /\ AFlushed(Ids(Ev.disk)) /\ UNCHANGED <<log, sub>>
-TSilent == /\ (IsEvent("tflush") \/ IsEvent("fl2")) /\ Strict
+TSilent == /\ (IsEvent("tflush") \/ IsEvent("fl1") \/ IsEvent("drain")) /\ Strict
            /\ UNCHANGED avars
-(* a report of the Go race detector: no execution with one is admitted, except
-   for the listed pairs of accessing functions *)
-KnownRaces == { <<"log_buffer.(*LogBuffer).ReadFromBuffer", "log_buffer.(*LogBuffer).loopFlush">> }
+(* a report of the Go race detector (a, b = the two accessing functions, sorted): no
+   execution with one is admitted, except for the listed finding *)
 TRace == /\ IsEvent("race")
-         /\ Deviate("C22-race-lastflushtime") /\ <<Ev.a, Ev.b>> \in KnownRaces
+         /\ Deviate("C22-race-lastflushtime")
+         /\ <<Ev.a, Ev.b>> = <<"log_buffer.(*LogBuffer).ReadFromBuffer", "log_buffer.(*LogBuffer).loopFlush">>
          /\ UNCHANGED avars
-TraceNext == TraceReset \/ TraceSkip \/ TAppend \/ TStart \/ TRead \/ TEnd \/ TFlush1 \/ TQuiesce \/ TSilent \/ TRace
+TraceNext == TraceReset \/ TraceSkip \/ TAppend \/ TAppended \/ TStart \/ TRead \/ TEnd \/ TFlush2 \/ TQuiesce \/ TSilent \/ TRace
 TraceSpec == TraceInit /\ [][TraceNext]_tvars
 =============================================================================
